@@ -35,5 +35,5 @@ Record == \A j \in 0..(QCap - 1) :
             LET a == Proj(j)
                 b == Proj(j)'
             IN a # b => TLCSet(1, TLCGet(1) \cup {<<j, a, b>>})
-Dump == \A e \in TLCGet(1) : PrintT(<<"EDGE", e>>)
+Dump == \A e \in TLCGet(1) : PrintT("EDGE " \o ToString(e))
 =============================================================================
